@@ -485,7 +485,8 @@ var c05Probes = [][]string{
 	{"a", "+", "b", "X", "c"}, {"X", "a"}, {"X", "a", "*", "b"}, {"-", "X", "a"}, {"a", "X"}, {"a", "X", "X"}, {"-", "a", "X"}, {"a", "Y", "b", "X", "c"},
 	{"a", "X", "b", "Y", "c"}, {"+", "a"}, {"a", "+", "+", "b"}, {"a", "+", "b", "*", "c"}, {"a", "!", "b"}, {"a", "!", "b", "*", "c"}, {"!", "a", "!", "b"}, {"!", "a"},
 	{"a", "++"}, {"++", "a"}, {"a", "(", "b", ")"}, {"a", "X", "(", "b", ")"}, {"(", "a", "X", "b", ")"}, {"a", "=", "b", "X", "c"}, {"X"}, {"a", "X", "Y"},
-	{"Y", "a", "X", "b"}, {"a", ".", "p", "X"}, {"a", "[", "b", "X", "c", "]"}, {"a", "Z", "b"}, {"Z", "a"}, {"a", "Y"}, {"a", "+", "b"}, {"a", "*", "b", "+", "c"},
+	{"Y", "a", "X", "b"}, {"a", ".", "p", "X"}, {"X", "a", "(", "b", ")"}, {"X", "a", "X"}, {"X", "a", "++"}, {"X", "a", ".", "p"}, {"X", "a", "[", "b", "]"}, {"X", "X", "a"},
+	{"Y", "a", "Y"}, {"+", "a", "(", "b", ")"}, {"a", "!", "(", "b", ")"}, {"a", "[", "b", "X", "c", "]"}, {"a", "Z", "b"}, {"Z", "a"}, {"a", "Y"}, {"a", "+", "b"}, {"a", "*", "b", "+", "c"},
 }
 
 type c05Hist struct {
@@ -502,6 +503,13 @@ func c05RunHist(hist []c05Op) (kind, detail string, env *c05Env, m *c05Model) {
 	seenIDs := map[token.Type]string{}
 	for i, o := range hist {
 		where := fmt.Sprintf("step %d %s", i, o)
+		if i > 0 {
+			// builders build many parsers: a parser is built and used between any two registrations, so that
+			// state cached at Build time cannot hide a later registration
+			if k, d, _ := c05ProbeSet(env, m, c05MiniProbes); k != "" {
+				return "interleaved-" + k, fmt.Sprintf("after step %d (parser built between registrations): %s", i-1, d), env, m
+			}
+		}
 		if o.Kind == "T" {
 			id := env.regType(o.Name)
 			if old, ok := ids[o.Name]; ok && old != id {
@@ -532,6 +540,7 @@ func c05RunHist(hist []c05Op) (kind, detail string, env *c05Env, m *c05Model) {
 			err = env.pb.RegisterPostfixOperator(ty, mkPostfix)
 		}
 		refused := m.step(o)
+		_ = refused
 		if refused && err == nil {
 			return "duplicate-accepted", fmt.Sprintf("%s: the token already has that role, but the registration returned no error", where), env, m
 		}
@@ -542,10 +551,29 @@ func c05RunHist(hist []c05Op) (kind, detail string, env *c05Env, m *c05Model) {
 	return "", "", env, m
 }
 
+var c05MiniProbes = [][]string{{"a", "X", "b", "*", "c"}, {"X", "a", "X"}, {"a", "Y"}, {"+", "a", "!", "b"}}
+
 func c05Probe(env *c05Env, m *c05Model, only string) (kind, detail string, n int) {
-	tab, amb := m.table()
-probes:
+	if only == "" {
+		return c05ProbeSet(env, m, c05Probes)
+	}
+	var sel [][]string
 	for _, pr := range c05Probes {
+		for _, t := range pr {
+			if t == only {
+				sel = append(sel, pr)
+				break
+			}
+		}
+	}
+	return c05ProbeSet(env, m, sel)
+}
+
+func c05ProbeSet(env *c05Env, m *c05Model, set [][]string) (kind, detail string, n int) {
+	tab, amb := m.table()
+	only := ""
+probes:
+	for _, pr := range set {
 		if only != "" {
 			found := false
 			for _, t := range pr {
